@@ -242,7 +242,7 @@ template <class S> void ls_cov(vf::Ctx& c, const char* tname) {
     if (c.want_sample()) c.sample(params);
   }
   // large problems on a solver that has solved a larger one before (buffers longer than the data): n1 rows, then n2 < n1 rows, covariance of the second
-  for (auto sz : std::vector<std::pair<int, int>>{{6000, 5000}, {9000, 4097}, {8192, 4096}, {5000, 4100}, {2048, 1025}}) for (int p : {3, 6}) for (int solver = 0; solver < 2; ++solver) for (int prec = 0; prec < 2; ++prec) {
+  for (auto sz : std::vector<std::pair<int, int>>{{6000, 5000}, {9000, 4097}, {8192, 4096}, {5000, 4100}, {2048, 1025}, {9000, 7000}, {14000, 11500}, {40000, 33000}}) for (int p : {3, 6}) for (int solver = 0; solver < 2; ++solver) for (int prec = 0; prec < 2; ++prec) {
     LeastSquares<S> ls(p); Mat Jk; Vec diag(p);
     for (int round = 0; round < 2; ++round) {
       int n = round ? sz.second : sz.first;
@@ -288,7 +288,7 @@ std::string vf_describe(const std::string& tier) {
   o.str("many_inits", "one object re-initialised N times between two reads of the derivative matrices for every N in 1..600 and {1023,1024,1025,4096,65535,65536,65537}, with and without a first read; bit-equal to a fresh object");
   o.str("transform_catalogue", "identity, yaw, roll, pitch, two generic axes, the 24 rotations of the cube, a yaw composed with a tilt of {1e-9,1e-6,3e-4,8e-4,1e-2} rad, rotations of 1e-7 and 2e-4 rad about a generic axis; each with and without translation");
   o.u("transforms", transforms().size()).u("attitudes", attitudes().size()).u("covariances", cov_catalogue().size());
-  o.str("least_squares", "estimate size 1..6, data size {p,p+3,40,64,255,256,1024,2048}, Cholesky and SVD, preconditioner {none, diag(0.5+j)+offset, diag(1e3/1e-3)+offset}, second problem on a reused solver; large shrinking pairs (6000 then 5000 rows, 9000/4097, 8192/4096, 5000/4100, 2048/1025); design matrix magnitude {1, 2^-17, 2^10} (float {1, 2^-6, 2^6}); float and double; tolerance 16 eps kappa(J)^2");
+  o.str("least_squares", "estimate size 1..6, data size {p,p+3,40,64,255,256,1024,2048}, Cholesky and SVD, preconditioner {none, diag(0.5+j)+offset, diag(1e3/1e-3)+offset}, second problem on a reused solver; large shrinking pairs (6000 then 5000 rows, 9000/4097, 8192/4096, 5000/4100, 2048/1025, 9000/7000, 14000/11500, 40000/33000); design matrix magnitude {1, 2^-17, 2^10} (float {1, 2^-6, 2^6}); float and double; tolerance 16 eps kappa(J)^2");
   return o.done();
 }
 
